@@ -197,6 +197,12 @@ func cmdCheck(args []string) int {
 		*tier = "quick"
 	}
 	t0 := time.Now()
+	// replay files of earlier runs of this property are stale
+	if old, _ := filepath.Glob(filepath.Join(verifDir, "replays", *prop+"-*.json")); len(old) > 0 {
+		for _, f := range old {
+			os.Remove(f)
+		}
+	}
 	b, err := newBuilder(repoDir, filepath.Join(verifDir, "sim"))
 	if err != nil {
 		fmt.Fprintln(os.Stderr, "scratch:", err)
@@ -237,6 +243,7 @@ func cmdCheck(args []string) int {
 	fmt.Fprintf(os.Stderr, "[check] property %s tier %s seed %d: %d plans x %d variants on %d workers\n", *prop, *tier, *seed, n, len(variants), *jobs)
 
 	st := newStats()
+	kfTriage := loadKnownFindings(filepath.Join(verifDir, "known_findings.json"))
 	type job struct {
 		v   *variant
 		idx int
@@ -247,6 +254,7 @@ func cmdCheck(args []string) int {
 	var found []foundViolation
 	var infra []string
 	sigSeen := map[string]int{}
+	preKnown := map[string]*knownFinding{}
 	stop := false
 	for w := 0; w < *jobs; w++ {
 		wg.Add(1)
@@ -266,7 +274,19 @@ func cmdCheck(args []string) int {
 					infra = append(infra, oc.Infra)
 				}
 				for _, v := range oc.Viols {
+					if *triage || v.Case != nil {
+						if k := kfTriage.matchV(*prop, j.v.Name, &v, oc.Plan); k != nil {
+							sigSeen["(known "+k.ID+")"]++
+							if v.Case != nil {
+								preKnown[k.ID] = k
+							}
+							continue
+						}
+					}
 					sigSeen[v.Sig]++
+					if all := os.Getenv("VERIF_TRIAGE_ALL"); all != "" && strings.HasPrefix(v.Sig, all) {
+						fmt.Printf("ALL [%s idx %d] %s :: %s\n", j.v.Name, j.idx, clip(v.Where, 200), clip(v.Detail, 300))
+					}
 					if sigSeen[v.Sig] <= 2 {
 						found = append(found, foundViolation{V: v, Variant: j.v.Name, Plan: oc.Plan, Seed: *seed, Index: j.idx})
 					}
@@ -321,6 +341,15 @@ func cmdCheck(args []string) int {
 	exit := 0
 	violations := 0
 	knownHit := map[string]bool{}
+	var pk []string
+	for id := range preKnown {
+		pk = append(pk, id)
+	}
+	sort.Strings(pk)
+	for _, id := range pk {
+		knownHit[id] = true
+		fmt.Printf("KNOWN-FINDING: property=%s %s: %s\n", *prop, id, preKnown[id].What)
+	}
 	reported := map[string]bool{}
 	sort.SliceStable(found, func(i, j int) bool {
 		if found[i].Index != found[j].Index {
@@ -328,23 +357,61 @@ func cmdCheck(args []string) int {
 		}
 		return found[i].V.Sig < found[j].V.Sig
 	})
+	var vmap = map[string]*variant{}
+	for _, v := range variants {
+		vmap[v.Name] = v
+	}
+	type rpOut struct {
+		f     foundViolation
+		rp    *Replay
+		known *knownFinding
+	}
+	var todo []foundViolation
 	for _, f := range found {
 		if reported[f.V.Sig] {
 			continue
 		}
 		reported[f.V.Sig] = true
-		var vmap map[string]*variant = map[string]*variant{}
-		for _, v := range variants {
-			vmap[v.Name] = v
-		}
-		rp := makeReplay(rn, vmap[f.Variant], f, !*noShrink && !*triage)
-		if k := kf.match(*prop, rp); k != nil {
+		todo = append(todo, f)
+	}
+	outs := make([]rpOut, len(todo))
+	var rwg sync.WaitGroup
+	rsem := make(chan struct{}, 8)
+	for i, f := range todo {
+		i, f := i, f
+		rwg.Add(1)
+		rsem <- struct{}{}
+		go func() {
+			defer rwg.Done()
+			defer func() { <-rsem }()
+			// stream violations carry their concrete case: match before shrinking,
+			// so that minimisation cannot move a finding into or out of a listed class
+			if f.V.Case != nil {
+				if k := kf.matchV(*prop, f.Variant, &f.V, f.Plan); k != nil {
+					outs[i] = rpOut{f: f, known: k}
+					return
+				}
+			}
+			rp := makeReplay(rn, vmap[f.Variant], f, !*noShrink && !*triage, *tier)
+			var k *knownFinding
+			if f.V.Case == nil {
+				k = kf.match(*prop, rp)
+			}
+			outs[i] = rpOut{f: f, rp: rp, known: k}
+		}()
+	}
+	rwg.Wait()
+	for _, o := range outs {
+		f := o.f
+		if o.known != nil {
+			k := o.known
 			if !knownHit[k.ID] {
 				knownHit[k.ID] = true
 				fmt.Printf("KNOWN-FINDING: property=%s %s: %s\n", *prop, k.ID, k.What)
 			}
 			continue
 		}
+		rp := o.rp
 		violations++
 		path := filepath.Join(verifDir, "replays", fmt.Sprintf("%s-%d-%s.json", *prop, *seed, plan.HashOf(rp)[:10]))
 		os.MkdirAll(filepath.Dir(path), 0o755)
